@@ -280,6 +280,23 @@ def laneOffer : List String → String
     | _, _, _ => "bad-op"
   | _ => "bad-op"
 
+/-- `c12alpn <force> <h3on> <reqH1> <protos> <serverALPN> <h3Up>`: a fresh client's first https
+request to an origin whose certificate it accepts → `offer=<list|none> quic=<0|1> route=<…>`:
+the ALPN list of the ClientHello the origin receives (`Dispatch.offered`; `none` when a forced
+HTTP/3 finds no QUIC listener), on which listener, and `Dispatch.route`. -/
+def laneAlpn : List String → String
+  | [force, h3on, reqH1, protos, srvAlpn, h3Up] =>
+    match pForce force, pBool h3on, pBool reqH1, pAlpns protos, pAlpns srvAlpn, pBool h3Up with
+    | some f, some h3on, some r, some ps, some sa, some up =>
+      let cfg : Cfg := ⟨f, h3on || f == some .h3, false, false, false, ps⟩
+      let req : Req := ⟨.https, r⟩
+      let net : Net := ⟨sa, true, up, true, false, .fail, false, false, false⟩
+      let quic := f == some .h3
+      let offer := if quic && !up then "none" else sAlpns (offered cfg req)
+      s!"offer={offer} quic={if quic then 1 else 0} route={sRoute (route cfg req net)}"
+    | _, _, _, _, _, _ => "bad-op"
+  | _ => "bad-op"
+
 def pSetting : String → Option Setting
   | "f1" => some .forceH1
   | "f2" => some .forceH2
@@ -320,7 +337,8 @@ def lanes : List (String × (List String → String)) := [
   ("c12path", lanePath),
   ("c12pathu", lanePathU),
   ("c12proxy", laneProxy),
-  ("c12offer", laneOffer)
+  ("c12offer", laneOffer),
+  ("c12alpn", laneAlpn)
 ]
 
 end Req.Driver.L.C12
